@@ -35,6 +35,9 @@ MUTANTS = [
     ("C15", "CloneSegmentAndConnections", "graph_operations/multiplication.py", "      processed.append(l)\n", ""),
     ("C15", "CloneSegmentAndConnections", "graph_operations/multiplication.py", "      if lc.to_segment == segment.name:\n        lc.to_segment = clone_name\n", ""),
     ("C15", "CloneSegmentAndConnections", "graph_operations/multiplication.py", "        lc.name = self._compute_copy_names(lc.name, 2)[0]\n", "        pass\n"),
+    ("C17", "FindEdgeFromPathToSegment", "line/group/ordered/captured_path.py", "      if any(e.line is edge for e in edges):\n        # (an edge of the segment with itself is listed once per end)\n        continue\n", ""),
+    ("C17", "FindEdgeFromPathToSegment", "line/group/ordered/captured_path.py", "    elif len(edges) > 1:\n      raise gfapy.NotUniqueError(", "    elif len(edges) > 2:\n      raise gfapy.NotUniqueError("),
+    ("C17", "FindEdgeFromPathToSegment", "line/group/ordered/captured_path.py", '        edges.append(gfapy.OrientedLine(edge, "-"))', '        edges.append(gfapy.OrientedLine(edge, "+"))'),
     ("C16", "Topology_n_dead_ends", "graph_operations/topology.py", "      if not s.dovetails_R: n+=1", "      if s.dovetails_R: n+=1"),
     ("C16", "Topology_n_containments", "graph_operations/topology.py", "      n += len(s.edges_to_containers)", "      n += len(s.edges_to_contained)"),
     ("C16", "Topology_n_dovetails", "graph_operations/topology.py", "      n += len(s.dovetails_R)\n    return n // 2", "      n += len(s.dovetails_R)\n    return n"),
